@@ -912,7 +912,7 @@ def get_all_implements_interface_nodes(
             implements_nodes.extend(
                 iface_node
                 for iface_node in iface_nodes
-                if iface_node.name.value == iface.name
+                if iface_node.name.value == str(iface)
             )
     return implements_nodes
 
